@@ -365,6 +365,25 @@ func parseRule(node *yaml.Node, offsetLine, offsetColumn int, contentLines []str
 			return invalidValueError(lines, entry.part.Line+offsetLine, entry.key, describeTag(strTag), describeTag(entry.part.ShortTag()))
 		}
 	}
+	// A null value is decoded by Prometheus as an empty string, which is not allowed for these keys.
+	for _, entry := range []struct {
+		part *yaml.Node
+		key  string
+	}{
+		{key: recordKey, part: recordNode},
+		{key: alertKey, part: alertNode},
+		{key: exprKey, part: exprNode},
+	} {
+		if entry.part != nil && entry.part.ShortTag() == nullTag {
+			return Rule{
+				Lines: lines,
+				Error: ParseError{
+					Line: entry.part.Line + offsetLine,
+					Err:  fmt.Errorf("%s value cannot be empty", entry.key),
+				},
+			}, false
+		}
+	}
 
 	for _, entry := range []struct {
 		part *yaml.Node
